@@ -197,7 +197,7 @@ def r_get_pagein(ctx):
     ctx.table(rid, table)
 
 
-def _closure_paths(repo, parent, env, locals_, ok, extra_inline=()):
+def _closure_paths(repo, parent, env, locals_, ok, extra_inline=(), between=None):
     """Explore the completion callback that Manager.<parent>(key) hands to the disk pool, with the variables it captured
     at submission (found by exploring the parent on the model store — independent of how the locals are called)."""
     pfi = repo.func(f"{DS}.Manager.{parent}")
@@ -224,7 +224,15 @@ def _closure_paths(repo, parent, env, locals_, ok, extra_inline=()):
         if k in env:
             env2[k] = env[k]
     ip = Interp(repo, call_models=MODELS, inline=lambda f: f.qual == f"{DS}.Manager.purge" or f.qual in extra_inline)
+    swap = None
+    if between is not None:
+        # another request is served between the submission of the job and its completion: the completion runs on the state that request left
+        env2, swap = between(env2)
+
+    def _sw(v):
+        return swap if (swap is not None and isinstance(v, Obj) and v.name == swap.name) else v
     if isinstance(cb, Partial):
+        cb = Partial(cb.fn, [_sw(a) for a in cb.args], {k: _sw(v) for k, v in cb.kwargs.items()})
         # functools.partial(self.<method>, captured...): the completion handler is a method; its last parameter is the outcome
         tgt = cb.fn
         tfi = tgt.fi if isinstance(tgt, BoundMethod) and tgt.fi is not None else (tgt.fi if hasattr(tgt, "fi") else None)
@@ -240,7 +248,7 @@ def _closure_paths(repo, parent, env, locals_, ok, extra_inline=()):
             raise AnalysisError(f"cannot tell the outcome parameter of {tfi.qual}: free parameters {free}")
         args[free[0]] = ok
         return tfi, ip.explore(tfi, env=env2, args=args)
-    cl = {k: c.value for k, c in cb.frame.locals.items()}
+    cl = {k: _sw(c.value) for k, c in cb.frame.locals.items()}
     cl.setdefault("self", Sym("self"))
     return cb.fi, ip.explore(cb.fi, env=env2, args={"ok": ok}, closure_locals=cl)
 
@@ -300,6 +308,51 @@ def r_pageout_callback(ctx):
                     ctx.violation(rid, fi.qual, loc(fi), "failed page-out purged", f"{atoms}: a dataset whose page-out failed stays in the table", row=atoms)
                 else:
                     ctx.ok(rid, loc(fi), f"page-out completion | {atoms}")
+
+
+def r_purge_races_pageout(ctx):
+    """C08.R8: a purge served while the dataset's page-out job is still running.  The disk thread unlinks the segment before it reports
+    completion, so the purge finds the dataset in `paging_out` with its segment either still there or already gone.  History on the model
+    store (size 4, free space 3): page_out submitted -> purge(key) [segment gone: opening it raises FileNotFoundError] -> the job's
+    completion(ok=True).  Whatever the purge does, the dataset's size is credited exactly once over the whole history."""
+    repo = ctx.repo
+    rid = f"{ctx.pid}.R8" if ctx.pid in ("C08",) else f"{ctx.pid}.PURGERACE"
+    pfi = repo.func(f"{DS}.Manager.purge")
+    ctx.analysed(pfi.qual)
+    seen = {}
+
+    def between(env2):
+        ip = Interp(repo, call_models=MODELS, raising=lambda d: "builtins.FileNotFoundError" if d["name"].rsplit(".", 1)[-1] == "SharedMemory" else None)
+        ps = [p for p in ip.explore(pfi, env=env2, args={"key": "k", "is_exit": False})
+              if any(e.kind == "raise" and e.data.get("from_call") for e in p.effects)]
+        if len(ps) != 1 or ps[0].exit[0] != "return":
+            from ..repo import AnalysisError
+            raise AnalysisError(f"purge with a vanished segment: {[(p.exit[0], vkey(p.exit[1])[:60]) for p in ps]}")
+        p = ps[0]
+        seen["free_after_purge"] = p.heap.get("self.free_space")
+        seen["tracked_after_purge"] = "k" in p.heap.get("self.datasets", {})
+        d3 = final_ds(p, "d")
+        return {k: v for k, v in p.heap.items() if k.startswith("self.")}, d3
+
+    d = dset("paging_out", size=4, name="d")
+    env = {"self.datasets": {"k": d}, "self.free_space": 3, "self.pageout_count": 1}
+    fi, paths = _closure_paths(repo, "page_out", env, {"ds": d, "key": "k", "self": Sym("self")}, True, between=between)
+    ctx.analysed(fi.qual)
+    ctx.evals(len(paths))
+    n = 0
+    for p in paths:
+        if p.exit[0] != "return":
+            continue
+        n += 1
+        free = p.heap["self.free_space"]
+        if free != 7:
+            ctx.violation(rid, pfi.qual, loc(pfi), "purge racing a finished page-out",
+                          f"dataset of size 4 being paged out, free space 3; the disk thread has already unlinked the segment when purge(key) is served (free space "
+                          f"afterwards {vkey(seen.get('free_after_purge'))}, still tracked={seen.get('tracked_after_purge')}), then the job reports success: free space ends at "
+                          f"{vkey(free)} (expected 7) — {'the size is credited twice, the store now grants more than its capacity' if isinstance(free, int) and free > 7 else 'the space is lost'}")
+        else:
+            ctx.ok(rid, loc(pfi), "page_out -> purge (segment already gone) -> completion: the size is credited exactly once")
+    ctx.floor(rid + ".histories", n, 1)
 
 
 def r_pagein_callback(ctx):
